@@ -1,5 +1,6 @@
-(* C18 - the parts of "compilation is a deterministic function of the source text" that are
-   about an algorithm and not about CPython:
+(* C18 - list lemmas for the part of "compilation is a deterministic function of the source text"
+   that is about an algorithm and not about CPython (used by Cli/DetCompile.v, which proves that
+   CompileClause.filter_free - the function inside the model compiler - is the function below):
 
    1. YPPrologCompiler.filter_free_variables as it is now
 
@@ -175,81 +176,10 @@ Proof.
     + intros i j x y Hx Hy Hlt. apply (S2 (S i) (S j) x y Hx Hy). lia.
 Qed.
 
-(* ------------------------------------------------------------------ *)
-(* the OLD behaviour list(set(...)): the iteration order of a set of strings is some permutation
-   that depends on the per-process hash seed.  Parametrised by that permutation, the result - and
-   with it the order of the `V_x = variable()` lines in the emitted text - is NOT invariant. *)
-Definition old_filter_free_variables (set_order : list str -> list str) (bound vars : list str) : list str :=
-  set_order (fromkeys [] (filter (fun v => negb (mem v bound)) vars)).
-
-(* compile_free_variable_declarations + generate_assign, at the indentation of a function body *)
-Definition declaration_lines (vs : list str) : str :=
-  concat (map (fun v => d "    V_" ++ v ++ d " = variable()\10;") vs).
-
-Theorem dedup_permutation_invariant_refuted :
-  exists (order1 order2 : list str -> list str) (bound vars : list str),
-    (forall l, Permutation (order1 l) l) /\ (forall l, Permutation (order2 l) l)
-    /\ old_filter_free_variables order1 bound vars <> old_filter_free_variables order2 bound vars
-    /\ declaration_lines (old_filter_free_variables order1 bound vars)
-       <> declaration_lines (old_filter_free_variables order2 bound vars).
-Proof.
-  exists (fun l => l), (@rev str), [d "X"], [d "X"; d "Y"; d "Z"; d "Y"].
-  split; [intros l; apply Permutation_refl|].
-  split; [intros l; apply Permutation_sym, Permutation_rev|].
-  split; vm_compute; discriminate.
-Qed.
-
-(* the current function has no such parameter; for the record: *)
+(* the current function has no parameter through which anything but (bound, vars) could enter; for the record: *)
 Example filter_free_example :
   filter_free_variables [d "X"] [d "X"; d "Y"; d "Z"; d "Y"; d "x1"; d "Z"; d "X"] = [d "Y"; d "Z"; d "x1"].
 Proof. reflexivity. Qed.
 
-(* ------------------------------------------------------------------ *)
-(* counters.  _compile_prolog_from_stream creates `YPPrologVisitor(ctx)` (anonymousVariableCounter
-   = 0) and `YPPrologCompiler(ctx)` (cut_if_counter = 0) anew for every call; nothing else in the
-   pipeline is stored outside these objects.  The compiler started from given counter values is
-   an ARBITRARY function here. *)
-Section Counters.
-  Variable A : Type.                                   (* result of one compilation: text or error *)
-  Variable compile_from : nat * nat -> str -> A * (nat * nat).
-
-  (* one call of compile_prolog_from_string *)
-  Definition compile_one (src : str) : A := fst (compile_from (0, 0) src).
-
-  (* several calls in one process, in order, as the code is *)
-  Fixpoint compile_many (srcs : list str) : list A :=
-    match srcs with
-    | [] => []
-    | s :: r => compile_one s :: compile_many r
-    end.
-
-  (* what it would be if the counters were module-level / stored in the options class *)
-  Fixpoint compile_many_shared (st : nat * nat) (srcs : list str) : list A :=
-    match srcs with
-    | [] => []
-    | s :: r => let (o, st') := compile_from st s in o :: compile_many_shared st' r
-    end.
-
-  Lemma compile_many_map srcs : compile_many srcs = map compile_one srcs.
-  Proof. induction srcs as [|s r IH]; cbn; [reflexivity|rewrite IH; reflexivity]. Qed.
-
-  (* C18 "after any other compilations in the same process": the result for a source is the same
-     whatever was compiled before it and whatever is compiled after it *)
-  Theorem counters_per_call : forall before after src,
-    nth_error (compile_many (before ++ src :: after)) (length before) = Some (compile_one src)
-    /\ compile_many (before ++ src :: after) = map compile_one before ++ compile_one src :: map compile_one after.
-  Proof.
-    intros before after src. rewrite compile_many_map, map_app. cbn [map]. split; [|reflexivity].
-    rewrite nth_error_app2; rewrite map_length; [|lia]. rewrite Nat.sub_diag. reflexivity.
-  Qed.
-End Counters.
-
-(* what the theorem excludes: with counters that survive a call, a compiler that only prints its
-   label counter (as get_cut_if_label does: "cutIf" + str(n)) gives a different text the second time *)
-Theorem shared_counters_refuted :
-  exists (compile_from : nat * nat -> str -> str * (nat * nat)) (src : str),
-    compile_many_shared str compile_from (0, 0) [src; src] <> compile_many str compile_from [src; src].
-Proof.
-  exists (fun st _ => (d "cutIf" ++ dec_of_nat (S (snd st)), (fst st, S (snd st)))), [].
-  vm_compute. discriminate.
-Qed.
+(* The pinned tree's list(set(...)) and the counters are treated on the real model of the compiler
+   in Cli/DetCompile.v (compile_text_g). *)
